@@ -161,7 +161,8 @@ func c13R2(a *A, cd *codec) {
 		for _, cls := range []string{"absent", "null", "value"} {
 			var emptyStores, dataStores []*ssa.Store
 			appends := 0
-			for _, b := range rl.blocksOfClass(cls) {
+			// the class's own blocks plus the blocks every iteration passes (before the tests, after the paths merge)
+			for _, b := range append(rl.blocksOfClass(cls), rl.commonBlocks()...) {
 				// blocks of later classes are nested in "present": restrict "null"/"value" to their own blocks
 				for _, in := range b.Instrs {
 					switch x := in.(type) {
@@ -216,6 +217,12 @@ func c13R2(a *A, cd *codec) {
 		}
 	}
 	// IsEmpty is stored true nowhere else in the package
+	loopFns := map[*ssa.Function]bool{}
+	for _, ls := range loops {
+		for _, rl := range ls {
+			loopFns[rl.Fn] = true
+		}
+	}
 	n := 0
 	for _, f := range w.srcFuncs(w.Root) {
 		instrs(f, func(in ssa.Instruction) {
@@ -229,7 +236,7 @@ func c13R2(a *A, cd *codec) {
 			}
 			n++
 			where := f.Name()
-			ok = where == "getValuesFromRow" || where == "getIdentifiesFromRow" || where == "newColumnData"
+			ok = where == "getValuesFromRow" || where == "getIdentifiesFromRow" || where == "newColumnData" || loopFns[f]
 			a.check(ok, rule, fmt.Sprintf("isempty-store@%s#%d", where, n), w.posOf(st), "absent flag written by the column loops / constructor", "the absent flag is written elsewhere")
 		})
 	}
